@@ -81,3 +81,46 @@ mod replay {
         }
     }
 }
+
+
+// shims + lifted body of the async CacheHandler::handle_query (key construction, class gate, insert-only-if-cacheable):
+// compiled for the MIR dump used by the mirsym engine, where every shim method below is SUMMARISED (never executed).
+#[cfg(any(kani, isomer_erbium_mir))]
+pub mod lifted {
+    #![allow(dead_code, unused_variables)]
+    use super::super::*;
+    pub struct LockShim;
+    impl LockShim {
+        fn read(&self) -> Cache {
+            unimplemented!()
+        }
+        fn write(&self) -> Cache {
+            unimplemented!()
+        }
+    }
+    pub struct NextShim;
+    impl NextShim {
+        fn handle_query(&self, _msg: &crate::dns::DnsMessage, _addr: std::net::SocketAddr) -> Result<dnspkt::DNSPkt, Error> {
+            unimplemented!()
+        }
+    }
+    pub struct CacheShim {
+        pub next: NextShim,
+        pub cache: LockShim,
+    }
+    impl CacheShim {
+        fn get_entry(_cache: &Cache, _ck: &CacheKey, _now: Instant) -> Option<Result<dnspkt::DNSPkt, Error>> {
+            unimplemented!()
+        }
+        fn calculate_expiry(&self, _r: &Result<dnspkt::DNSPkt, Error>) -> Duration {
+            unimplemented!()
+        }
+        fn insert_cache_entry(&self, _cache: &mut Cache, _ck: CacheKey, _r: &Result<dnspkt::DNSPkt, Error>, _expiry: Duration) {
+            unimplemented!()
+        }
+    }
+    fn harness_now() -> Instant {
+        unimplemented!()
+    }
+    include!(concat!(env!("VERIF_GEN_DIR"), "/cache_handle_query.rs"));
+}
